@@ -117,6 +117,11 @@ func isOnCurve(c elliptic.Curve, x, y *big.Int) bool {
 	if x == nil || y == nil {
 		return false
 	}
+	// only canonical field elements: the curve implementations truncate or reduce oversized
+	// and ignore the sign of negative coordinates, which would let many encodings pass for one point
+	if p := c.Params().P; x.Sign() < 0 || y.Sign() < 0 || x.Cmp(p) >= 0 || y.Cmp(p) >= 0 {
+		return false
+	}
 	return c.IsOnCurve(x, y)
 }
 
